@@ -1,4 +1,38 @@
-import YV.Model.XParse
+/-
+  C04 — exactly the supported XPath and leafref path syntax is accepted.  Headline obligations.
+-/
+import YV.Model.XTables
+import YV.Gen.XPath
+import YV.Gen.Status
 namespace YV.C04
-theorem placeholder : True := trivial
+open YV YV.X YV.XL YV.XP
+
+/-- the translator recognised every shape it was asked to extract -/
+theorem C04_gen_complete : Gen.extractionFailures = [] := by decide
+
+/-- the function table of the source is the one the models use (names, arities, argument kinds, return kinds) -/
+theorem C04_fn_table : Gen.fnTable = XT.fnTableSorted := by decide
+
+theorem C04_token_consts : Gen.tokenConsts = XT.tokenConsts := by decide
+/-- in particular the two values the lexer model hard-codes -/
+theorem C04_eof_err : Gen.tokenConsts.lookup "EOF" = some XL.EOF ∧ Gen.tokenConsts.lookup "ERR" = some XL.ERR := by decide
+
+theorem C04_expr_token_map : Gen.exprTokenMap = XT.exprTokenMap := by decide
+theorem C04_leafref_token_map : Gen.leafrefTokenMap = XT.leafrefTokenMap := by decide
+theorem C04_patheval_token_map : Gen.pathEvalTokenMap = XT.pathEvalTokenMap := by decide
+theorem C04_name_lists :
+    Gen.nodeTypeNames = XT.nodeTypeNames ∧ Gen.axisNames = XT.axisNames ∧
+    Gen.operatorNames = XT.operatorNames ∧ Gen.notOperatorAfter = XT.notOperatorAfter := by decide +kernel
+
+/-- the grammars the parser models transcribe are the grammars of the source, production by production,
+    including which ProgBuilder method each action calls -/
+theorem C04_expr_rules : Gen.exprRules = XT.exprRules := by decide +kernel
+theorem C04_leafref_rules : Gen.leafrefRules = XT.leafrefRules := by decide +kernel
+
+/-- goyacc reports no conflict for the current grammars (so LALR(1) accepts exactly the context-free
+    language and the recursive-descent transcription is equivalent), and the checked-in tables are fresh -/
+theorem C04_yacc_no_conflicts :
+    Gen.yaccConflicts = [("xpath.y", "0/0"), ("leafref.y", "0/0"), ("path_eval.y", "0/0")] := by decide
+theorem C04_yacc_fresh : Gen.yaccFresh = [("xpath.go", "fresh"), ("path_eval.go", "fresh")] := by decide
+
 end YV.C04
